@@ -550,7 +550,7 @@ func (w *World) pickHolding(label string) (sdk.AccAddress, string, *big.Rat) {
 // phantom returns (one draw in twelve, when there is one) an identifier that was created only inside a discarded
 // branch. The normal branch is choice 0.
 func (w *World) phantom(label string, pool []string) (string, bool) {
-	if len(pool) == 0 || w.intn(label+"?phantom", 12) != 11 {
+	if len(pool) == 0 || w.intn(label+"?phantom", 9) != 8 {
 		return "", false
 	}
 	w.Flags["phantom-id-used"] = true
@@ -560,6 +560,9 @@ func (w *World) phantom(label string, pool []string) (string, bool) {
 func (w *World) pickBatchDenom(label string) (string, *baseapi.Batch) {
 	if d, ok := w.phantom(label, w.phBatches); ok {
 		return d, nil
+	}
+	if d, ok := w.branchNew(label, w.brNew.batches); ok {
+		return d, w.S.BatchByDenom(d)
 	}
 	if len(w.S.Batches) > 0 && !w.offState(label) {
 		b := pickOf(w, label, w.S.Batches)
@@ -572,6 +575,13 @@ func (w *World) pickClassID(label string) (string, *baseapi.Class) {
 	if d, ok := w.phantom(label, w.phClasses); ok {
 		return d, nil
 	}
+	if d, ok := w.branchNew(label, w.brNew.classes); ok {
+		for _, c := range w.S.Classes {
+			if c.Id == d {
+				return d, c
+			}
+		}
+	}
 	if len(w.S.Classes) > 0 && !w.offState(label) {
 		c := pickOf(w, label, w.S.Classes)
 		return c.Id, c
@@ -582,6 +592,13 @@ func (w *World) pickClassID(label string) (string, *baseapi.Class) {
 func (w *World) pickProjectID(label string) (string, *baseapi.Project) {
 	if d, ok := w.phantom(label, w.phProjects); ok {
 		return d, nil
+	}
+	if d, ok := w.branchNew(label, w.brNew.projects); ok {
+		for _, c := range w.S.Projects {
+			if c.Id == d {
+				return d, c
+			}
+		}
 	}
 	if len(w.S.Projects) > 0 && !w.offState(label) {
 		p := pickOf(w, label, w.S.Projects)
@@ -602,6 +619,9 @@ func (w *World) issuersOf(classKey uint64) [][]byte {
 
 func (w *World) creditTypeAbbrev(label string) string {
 	if d, ok := w.phantom(label, w.phCreditTypes); ok {
+		return d
+	}
+	if d, ok := w.branchNew(label, w.brNew.creditTypes); ok {
 		return d
 	}
 	if len(w.S.CreditTypes) > 0 && !w.offState(label) {
